@@ -207,6 +207,32 @@ class Check:
         log("  small-world %-28s %9d states %10d transitions %6.1fs" % (module + (":" + cfg if cfg else ""), r["distinct"], r["generated"], r["wall"]))
         return r
 
+    # -- symbolic proof of an inductive invariant (Apalache): no bound on the data -----------
+    def apalache(self, module, obligations, subdir="proof", timeout=900):
+        """obligations: list of (name, [apalache options], expect_error).  The module is copied to the run directory first (the tool litters)."""
+        src = os.path.join(SPEC, subdir, module + ".tla")
+        work = os.path.join(self.dir, "apalache-" + module)
+        os.makedirs(work, exist_ok=True)
+        shutil.copy(src, work)
+        done = []
+        for (name, opts, expect_error) in obligations:
+            t0 = time.time()
+            p = sh(["apalache-mc", "check", "--out-dir=" + os.path.join(work, "out")] + opts + [module + ".tla"], cwd=work, timeout=timeout, check=False,
+                   env=dict(os.environ, JAVA_TOOL_OPTIONS=""))
+            m = re.search(r"The outcome is: (\w+)", p.stdout)
+            outcome = m.group(1) if m else "none"
+            if outcome not in ("NoError", "Error"):
+                raise Machinery("apalache gave no verdict on %s/%s (rc=%d):\n%s" % (module, name, p.returncode, p.stdout[-3000:]))
+            if expect_error and outcome != "Error":
+                raise Machinery("apalache was expected to refute %s/%s (mutant design) but did not" % (module, name))
+            if not expect_error and outcome != "NoError":
+                raise Machinery("apalache refutes proof obligation %s/%s: the proof (not the code) is broken\n%s" % (module, name, p.stdout[-3000:]))
+            done.append(dict(obligation=name, options=" ".join(opts), outcome=outcome, expected=("Error" if expect_error else "NoError"), wall=round(time.time() - t0, 1)))
+            log("  apalache    %-28s %-34s %-8s %5.1fs" % (module, name, outcome, time.time() - t0))
+        shutil.rmtree(work, ignore_errors=True)
+        self.extra.setdefault("symbolic_proofs", []).append(dict(module=module, tool="apalache-mc 0.58.0", obligations=done))
+        return done
+
     # -- generator ------------------------------------------------------------------------
     def generate(self, module, name="prog", env=None, timeout=600, simulate=None, workers=1, extra=None):
         out = os.path.join(self.dir, name + ".jsonl")
